@@ -7,7 +7,9 @@ from pyvc import loader, symx
 from pyvc.core import Refuted
 from pyvc.ident import Reducer, require_identity
 from pyvc.npx import X, XArray, exact, val, vals, xarr
-from pyvc.symx import Explorer, zv
+from fractions import Fraction
+
+from pyvc.symx import Explorer, Z3Alg, zv
 
 META = {
     "level_text": "Deductive on the per-segment decisions, bounded in the number of samples: (1) identities: the section "
@@ -362,6 +364,38 @@ def _cubic(chk):
     chk.obl("cubic refinement: the hit time stays inside its bracketing interval [t_k, t_k+1]",
             "K2 path VC (4 samples, one Newton step, symbolic values)", [fn_label], "B1 z3 NRA (B2 cvc5 on unknown)",
             lambda: explore().verdict("cubic refinement: the hit time stays inside its bracketing interval [t_k, t_k+1]"))
+
+    # "differ from the exact crossing by no more than the interpolation error of that interval": the interpolation error of an
+    # AFFINE section function is zero for both interpolants on ANY time grid - the refinement must return the exact crossing
+    def affine_body(grid, kind):
+        def body(ctx):
+            a, tau = ctx.real("a"), ctx.real("tau")
+            t = [Fraction(v) for v in grid]
+            ctx.assume(z3.And(zv(a) != 0, zv(tau) > t[1], zv(tau) < t[2]), silent=True)
+            g = [a * (ti - tau) for ti in t]
+            states = _np.array([[X(Z3Alg._num(ti)), 2 * ti - 1] for ti in t], dtype=object).view(XArray)
+            alpha = (tau - t[1]) / (t[2] - t[1])
+            tt = _np.array([X(Z3Alg._num(ti)) for ti in t], dtype=object).view(XArray)
+            ga = _np.array(g, dtype=object).view(XArray)
+            al = _np.array([alpha], dtype=object).view(XArray)
+            if kind == "cubic":
+                th, xh = sb._refine_hits_cubic(tt, states, ga, _np.array([1]), al, max_iter=2)
+            else:
+                th, xh = sb._refine_hits_linear(tt[:-1], tt[1:], states[:-1], states[1:], _np.array([1]), al)
+            ctx.check(f"{kind} refinement is exact for an affine section function on the grid {list(grid)}",
+                      z3.And(zv(th[0]) == zv(tau), zv(xh[0][0]) == zv(tau), zv(xh[0][1]) == 2 * zv(tau) - 1))
+        return body
+    for kind in ("linear", "cubic"):
+        for grid in ((0, 1, 2, 3), (0, 1, 3, 7), (0, 4, 5, "11/2")):
+            nm = f"{kind} refinement is exact for an affine section function on the grid {list(grid)}"
+            exa = Explorer(SB + f":_refine_hits_{kind}", max_paths=3000, timeout_ms=30000)
+
+            def run_(exa=exa, grid=grid, kind=kind, nm=nm):
+                exa.run(affine_body(grid, kind))
+                return exa.verdict(nm)
+            chk.obl(nm + " (hit time and state == exact crossing; slope a and crossing time symbolic)",
+                    "K2 path VC (4 samples, non-uniform grids, symbolic slope / crossing)", [SB + f":_refine_hits_{kind}"],
+                    "B1 z3 NRA (B2 cvc5 on unknown)", run_)
 
 
 def _engine_forwarding(chk):
